@@ -11,6 +11,18 @@
     searchsorted cells) are enumerated with a coverage certificate.
 (3) Refinement: two epochs with identical rates and no sampling at the (symbolic) new
     boundary against the same one-epoch oracle.
+(4) Refinement INSIDE a skyline (relational, no oracle): a two-epoch skyline with DISTINCT
+    symbolic rates and the three-epoch skyline obtained by splitting its older (resp. its
+    recent) epoch at a symbolic new boundary, and one epoch split in three, are both run
+    through the real code on shared symbols; the results must be equal.  The extinction
+    probabilities p_i that both runs compute are generalised to fresh variables (after
+    their bounds were proved), p_i that should agree are proved equal and the refined result
+    is rewritten with the equality, B_i across a new boundary is proved to be the Moebius
+    image of B_(i+1) and rewritten; the remaining lemmas are those of a one-epoch problem.
+(5) Two epochs with DISTINCT rates against an independent two-epoch oracle (constant-rate
+    solution of Stadler 2010 restarted at the boundary; reproduces the two-epoch BEAST2
+    literals): the oracle's extinction probability at the boundary is proved equal to the
+    implementation's p_1, the oracle is rewritten with it and the shared quantity generalised.
 
 The identity mixes exp(c1 t), sqrt and rational functions.  It is decided by a chain
 of small solver lemmas (see `LemmaChain`): arguments of exp / sqrt / log applications
@@ -67,7 +79,7 @@ class _SymMath:
         return self._u('sqrt', x)
 
 
-def stadler_oracle(lam, mu, psi, rho, x0, xs, tips, survival=False, r=None, M=_FloatMath):
+def stadler_oracle(lam, mu, psi, rho, x0, xs, tips, survival=False, r=None, M=_FloatMath, probe=None):
     """Stadler (2010, JTB 267) Thm 3.5 / Cor 3.7, constant rates: log density of a sampled tree with
     origin x0, branching times xs, tip heights `tips` (time before the present).  Tips at height 0 are
     rho-sampled when rho > 0, every other tip is a psi-sample.  survival: condition on at least one sample
@@ -77,6 +89,8 @@ def stadler_oracle(lam, mu, psi, rho, x0, xs, tips, survival=False, r=None, M=_F
     Works on floats and on SymFloats (M supplies exp/log/sqrt)."""
     c1 = M.sqrt((lam - mu - psi) ** 2 + 4.0 * lam * psi)
     c2 = -(lam - mu - 2.0 * lam * rho - psi) / c1
+    if probe is not None:
+        probe['c2'] = [c2]  # only looked at to choose a lemma (the harness proves it equal to the implementation's B of the last epoch)
 
     def q(t):
         return 2.0 * (1.0 - c2 ** 2) + M.exp(-(c1 * t)) * (1.0 - c2) ** 2 + M.exp(c1 * t) * (1.0 + c2) ** 2
@@ -109,7 +123,7 @@ def stadler_oracle(lam, mu, psi, rho, x0, xs, tips, survival=False, r=None, M=_F
     return lf
 
 
-def skyline2_oracle(recent, old, rho, rho1, hb, x0, xs, tips, survival=False, M=_FloatMath):
+def skyline2_oracle(recent, old, rho, rho1, hb, x0, xs, tips, survival=False, M=_FloatMath, probe=None):
     """Two epochs, composed from the constant-rate solution of Stadler (2010) instead of the skyline recursion:
     recent epoch [0, hb) with rates `recent` = (lambda, mu, psi) and rho-sampling probability rho at height 0; at height
     hb every lineage alive is sampled with probability rho1 (no tip of the tree is sampled there); older epoch [hb, x0]
@@ -120,6 +134,8 @@ def skyline2_oracle(recent, old, rho, rho1, hb, x0, xs, tips, survival=False, M=
     def blocks(lam, mu, psi, rho_):
         c1 = M.sqrt((lam - mu - psi) ** 2 + 4.0 * lam * psi)
         c2 = -(lam - mu - 2.0 * lam * rho_ - psi) / c1
+        if probe is not None:
+            probe.setdefault('c2', []).append(c2)  # only looked at to choose lemmas
 
         def q(t):
             return 2.0 * (1.0 - c2 ** 2) + M.exp(-(c1 * t)) * (1.0 - c2) ** 2 + M.exp(c1 * t) * (1.0 + c2) ** 2
@@ -131,7 +147,10 @@ def skyline2_oracle(recent, old, rho, rho1, hb, x0, xs, tips, survival=False, M=
         return q, p0
 
     q_r, p_r = blocks(recent[0], recent[1], recent[2], rho)
-    rho_eff = 1.0 - (1.0 - rho1) * p_r(hb)
+    p_hb = p_r(hb)
+    if probe is not None:
+        probe['p_boundary'] = p_hb  # only looked at to choose a lemma (the harness proves it equal to the implementation's p_i)
+    rho_eff = 1.0 - (1.0 - rho1) * p_hb
     q_o, p_o = blocks(old[0], old[1], old[2], rho_eff)
     n_cross = 1  # the lineage that starts at the origin
     lf = -M.log(q_o(x0 - hb))
@@ -221,8 +240,12 @@ class LemmaChain:
         self.verbose = verbose
         self.failed = []
         self.nproved = 0
+        self.abstract = {}  # node -> name: sub-expressions generalised to fresh variables exactly like the exp/log/sqrt atoms
 
     # -- helpers
+    def is_atom(self, n):
+        return self.d.ops[n] == 'uf' or n in self.abstract
+
     def uf_nodes(self, roots, name=None):
         d = self.d
         return [n for n in d.topo(list(roots)) if d.ops[n] == 'uf' and (name is None or d.args[n][0] == name)]
@@ -239,7 +262,7 @@ class LemmaChain:
                 continue
             seen.add(n)
             op = d.ops[n]
-            if op == 'uf':
+            if op == 'uf' or n in self.abstract:
                 out.add(n)
                 continue
             if op == 'var':
@@ -252,21 +275,21 @@ class LemmaChain:
         d = self.d
         ufs = set()
         for f in formulas:
-            ufs |= {n for n in self.atoms([f]) if d.ops[n] == 'uf'}
+            ufs |= {n for n in self.atoms([f]) if self.is_atom(n)}
         for n in sorted(ufs):
             if n not in self.amap:
-                self.amap[n] = self.t.fresh('g_' + d.args[n][0], d.vals[n])
+                self.amap[n] = self.t.fresh('g_' + (self.abstract[n] if n in self.abstract else d.args[n][0]), d.vals[n])
         return d.substitute(list(formulas), {n: self.amap[n] for n in ufs})
 
     def select(self, node, closed=False, rounds=2):
         """lemma selection.  closed: facts that only mention transcendental atoms of the statement;
         otherwise facts sharing a transcendental atom with it, transitively (two rounds)."""
         d = self.d
-        want = {a for a in self.atoms([node]) if d.ops[a] == 'uf'}
+        want = {a for a in self.atoms([node]) if self.is_atom(a)}
         sel = []
         if closed:
             for f in self.facts:
-                fa = {a for a in self.atoms([f]) if d.ops[a] == 'uf'}
+                fa = {a for a in self.atoms([f]) if self.is_atom(a)}
                 if fa <= want:
                     sel.append(f)
             return sel
@@ -275,7 +298,7 @@ class LemmaChain:
             for f in self.facts:
                 if f in sel:
                     continue
-                fa = {a for a in self.atoms([f]) if d.ops[a] == 'uf'}
+                fa = {a for a in self.atoms([f]) if self.is_atom(a)}
                 if fa & want or not fa:
                     sel.append(f)
                     new |= fa
@@ -445,6 +468,15 @@ class LemmaChain:
     def positive(self, g):
         return self.d.vals[g] > 0 and self.sign(g, 'log argument')
 
+    def prove_product(self, what, node):
+        """a relation between log arguments; when the chain rewrote the constants B_i (see `equal`), the laws of exp among the exp
+        applications of the relation itself are instantiated first and the remaining B is generalised (the relation holds for
+        every B)"""
+        if getattr(self, 'b_atoms', None):
+            self.exp_relations(node)
+            return self.prove_generalising(what, node, self.b_atoms)
+        return self.prove(what, node)
+
     def log_phase(self, I, O):
         """pair log applications of implementation and oracle on the witness; prove the pairing relation"""
         d = self.d
@@ -470,20 +502,20 @@ class LemmaChain:
                     cn = d.const(c)
                     if self.close(v1, float(c) * v2):  # g1 = c g2
                         if c == 1:
-                            if self.prove(f'log arguments agree #{L1}~#{L2}', d.eq(g1, g2)):
+                            if self.prove_product(f'log arguments agree #{L1}~#{L2}', d.eq(g1, g2)):
                                 self.fact(d.eq(L1, L2))  # congruence
                                 found = True
                         elif c > 1:
-                            if self.prove(f'log arguments: #{L1} = {c} * #{L2}', d.eq(g1, d.mul(cn, g2))) and self.positive(g2):
+                            if self.prove_product(f'log arguments: #{L1} = {c} * #{L2}', d.eq(g1, d.mul(cn, g2))) and self.positive(g2):
                                 self.fact(d.eq(L1, d.add(d.log(cn), L2)))  # log(c x) = log c + log x, x > 0
                                 found = True
                         else:
                             ci = d.const(1 / c)
-                            if self.prove(f'log arguments: #{L2} = {1 / c} * #{L1}', d.eq(g2, d.mul(ci, g1))) and self.positive(g1):
+                            if self.prove_product(f'log arguments: #{L2} = {1 / c} * #{L1}', d.eq(g2, d.mul(ci, g1))) and self.positive(g1):
                                 self.fact(d.eq(L2, d.add(d.log(ci), L1)))
                                 found = True
                     if self.close(v1 * v2, float(c)) and c >= 1:  # g1 g2 = c
-                        if self.prove(f'log arguments: #{L1} * #{L2} = {c}', d.eq(d.mul(g1, g2), cn)) \
+                        if self.prove_product(f'log arguments: #{L1} * #{L2} = {c}', d.eq(d.mul(g1, g2), cn)) \
                                 and self.positive(g1) and self.positive(g2):
                             self.fact(d.eq(d.add(L1, L2), d.log(cn) if c != 1 else 0))  # log x + log y = log(xy)
                             found = True
@@ -506,7 +538,7 @@ class LemmaChain:
                         continue
                     if self.close(d.vals[g1] * d.vals[gb] * d.vals[g2], 4.0):
                         tried[key] = False
-                        if self.prove(f'log arguments: #{L1} * #{Lb} * #{L2} = 4', d.eq(d.mul(d.mul(g1, gb), g2), d.const(4))) \
+                        if self.prove_product(f'log arguments: #{L1} * #{Lb} * #{L2} = 4', d.eq(d.mul(d.mul(g1, gb), g2), d.const(4))) \
                                 and self.positive(g1) and self.positive(gb) and self.positive(g2):
                             self.fact(d.eq(d.add(d.add(L1, Lb), L2), log4))  # log x + log y + log z = log(xyz)
                             found = True
@@ -524,15 +556,24 @@ class LemmaChain:
                         continue
                     q1, q2 = d.args[o1][1], d.args[o2][1]
                     if self.close(d.vals[g1] * d.vals[q1], d.vals[g2] * d.vals[q2]) and d.vals[g1] > 0 and d.vals[g2] > 0:
-                        if self.prove(f'log arguments: #{L1} * #{o1} = #{L2} * #{o2}', d.eq(d.mul(g1, q1), d.mul(g2, q2))) \
+                        if self.prove_product(f'log arguments: #{L1} * #{o1} = #{L2} * #{o2}', d.eq(d.mul(g1, q1), d.mul(g2, q2))) \
                                 and self.positive(g1) and self.positive(g2) and self.positive(q1) and self.positive(q2):
                             self.fact(d.eq(d.add(L1, o1), d.add(L2, o2)))
         return unpaired
 
-    def equal(self, I, O, signature, what, impl_end=None):
+    def equal(self, I, O, signature, what, impl_end=None, p_impl=(), p_oracle=None, B_impl=(), c2_oracle=None):
         """the whole chain; returns a Goal for the Explorer (final linear step).
         impl_end: number of DAG nodes when the implementation had finished (before the oracle ran); log applications
-        the implementation built but multiplied by a zero count are still available as auxiliary atoms."""
+        the implementation built but multiplied by a zero count are still available as auxiliary atoms.
+        p_impl / p_oracle (two epochs with distinct rates): the extinction probabilities the implementation computed and the
+        oracle's extinction probability at the epoch boundary.  When the solver PROVES the latter equal to one of the former, the
+        oracle is rewritten with that equality and the shared quantity is generalised to a fresh variable (after its bounds were
+        proved): the older epoch is then a one-epoch problem whose sampling probability at its recent end is that variable.
+        B_impl / c2_oracle (two epochs): the constants B_i the implementation computed (most recent epoch first) and the oracle's
+        constants c2 (one per epoch of the oracle).  When the solver PROVES a c2 equal to a B_i the oracle is rewritten with it; with
+        the one-epoch oracle the older B_i are rewritten as Moebius images (proved); the B_i that remain are generalised inside the
+        relations between log arguments.  Everything that was rewritten away is shown to be well
+        defined through the proved equalities (`transfer`)."""
         d = self.d
         t = self.t
         # selections torch.where(c, a, b) whose condition is decided on the whole region are replaced by the selected
@@ -559,6 +600,40 @@ class LemmaChain:
         aux_cone = set(d.topo(self.aux_logs))
         self.sqrt_phase([goal] + self.aux_logs)
         self.exp_phase([goal] + self.aux_logs)
+        cone0 = cone
+        self.eqs = []
+        self.b_atoms = []
+        rw = {}
+        if p_oracle is not None and d.ops[p_oracle] not in ('const', 'var'):
+            for a in p_impl:
+                if a != p_oracle and d.ops[a] not in ('const', 'var') and self.close(d.vals[a], d.vals[p_oracle]) and self.prove(
+                        f'extinction probability at the epoch boundary: oracle #{p_oracle} = implementation #{a}', d.eq(p_oracle, a)):
+                    rw[p_oracle] = a
+                    self.eqs.append((p_oracle, a))
+                    self.make_abstract(a)
+                    break
+        Bs = [b for b in B_impl if d.ops[b] not in ('const', 'var')]
+        for c2 in (c2_oracle or []):
+            c2r = d.substitute([c2], rw)[0] if rw else c2
+            if d.ops[c2r] in ('const', 'var'):
+                continue
+            for b in Bs:
+                if self.close(d.vals[c2r], d.vals[b]) and (c2r == b or self.prove(
+                        f'the oracle\'s c2 #{c2r} = the implementation\'s B_i #{b}', d.eq(c2r, b))):
+                    if c2r != b:
+                        rw[c2] = b
+                        self.note_eq(c2, c2r, b)
+                    if b not in self.b_atoms:
+                        self.b_atoms.append(b)
+                    break
+        if self.b_atoms and len(Bs) > len(self.b_atoms):  # identical rates across a boundary without rho-sampling
+            rw = self.mobius_phase(list(B_impl), self.b_atoms, rw, [goal] + self.aux_logs)
+        if rw:
+            I, O = d.substitute([I, O], rw)
+            goal = d.eq(I, O)
+            cone = set(d.topo([goal]))
+            self.aux_logs = [n for n in dict.fromkeys(d.substitute(self.aux_logs, rw)) if n not in cone]
+            aux_cone = set(d.topo(self.aux_logs))
         self.sign_phase([b for b in t.denominators if b in aux_cone and b not in cone], 'auxiliary denominator')
         self.defined = self.sign_phase([b for b in t.denominators if b in cone])
         # log arguments that implementation and oracle share (up to a proved equality) first
@@ -577,7 +652,286 @@ class LemmaChain:
         for kind, x in doms:
             if not (d.vals[x] > 0 and self.sign(x, 'log argument' if kind == 'pos' else 'sqrt argument')):
                 self.undefined.append(x)
+        if rw:  # what implementation and oracle really computed (before the rewriting) has to be well defined too
+            for b in [b for b in t.denominators if b in cone0 and b not in cone]:
+                b_new = d.substitute([b], rw)[0]
+                if not (self.transfer(b, b_new, 'denominator') if b_new != b else self.sign(b, 'denominator')):
+                    self.defined = False
+                    self.failed.append((f'denominator #{b} (rewritten: #{b_new}): sign not transferred', 'unknown'))
+            for kind, x in [(k, x) for k, x in t.domains if x in cone0 and x not in cone and d.ops[x] != 'var']:
+                x_new = d.substitute([x], rw)[0]
+                what_ = 'log argument' if kind == 'pos' else 'sqrt argument'
+                if not (d.vals[x] > 0 and (self.transfer(x, x_new, what_) if x_new != x else self.sign(x, what_))):
+                    self.undefined.append(x)
         self.log_phase(I, O)
+        hyps = [f for f in self.facts if any(d.ops[a] == 'uf' and d.args[a][0] == 'log' for a in self.atoms([f]))]
+        forms = self.generalise([goal] + hyps)
+        return Goal(what, forms[0], hyps=forms[1:], signature=signature)
+
+    # -- relational use: two runs of the real code on shared symbols (refined skyline vs the skyline it refines)
+    def select_branches(self, I):
+        """torch.where selections whose condition is decided on the whole region are replaced by the selected branch"""
+        d = self.d
+        sel = {}
+        for n in d.topo([I]):
+            if d.ops[n] == 'ite':
+                c, a, b = d.args[n]
+                if d.ops[a] == 'const' and d.ops[b] == 'const':
+                    continue
+                c2 = d.substitute([c], sel)[0] if sel else c
+                holds = bool(d.vals[c2])
+                if self.prove(f'selection #{n} takes the same branch on the whole region', c2 if holds else d.not_(c2), hyps=[]):
+                    sel[n] = d.substitute([a if holds else b], sel)[0] if sel else (a if holds else b)
+        return d.substitute([I], sel)[0] if sel else I
+
+    def make_abstract(self, x, name='p'):
+        """an extinction probability both runs share: its bounds are PROVED on the expression itself, then it is generalised to a
+        fresh real variable in every later lemma (a proof of the generalisation is a proof of the instance)"""
+        d = self.d
+        if d.ops[x] in ('const', 'var') or x in self.abstract:
+            return
+        self.lemma(f'extinction probability #{x} > 0', d.lt(0, x))
+        self.lemma(f'extinction probability #{x} < 1', d.lt(x, 1))
+        self.abstract[x] = name
+
+    def prove_generalising(self, what, node, extra, hyps=None, name='B'):
+        """one lemma in which the nodes `extra` are generalised to fresh variables as well (retried without, if that fails)"""
+        d = self.d
+        tmp = {x: name for x in extra if x not in self.abstract and d.ops[x] not in ('const', 'var')}
+        self.abstract.update(tmp)
+        try:
+            ok = self.prove(what, node, hyps)
+        finally:
+            for x in tmp:
+                del self.abstract[x]
+        if not ok and tmp and hyps is None:
+            ok = self.prove(what + ' (nothing else generalised)', node)
+        return ok
+
+    def note_eq(self, a, a2, b):
+        """a2 (= a rewritten with the earlier equalities) == b was proved: a == b follows by congruence (one cheap lemma in which
+        both sides of every earlier equality are generalised); the pair is kept for `transfer`"""
+        d = self.d
+        if a2 != a:
+            hyps = [d.eq(a2, b)] + [d.eq(x, y) for x, y in self.eqs]
+            if not self.prove_generalising(f'#{a} = #{b} (congruence)', d.eq(a, b), [z for xy in self.eqs for z in xy], hyps=hyps, name='t'):
+                return
+        self.eqs.append((a, b))
+
+    def p_phase(self, p_fine, p_coarse, shared_B=()):
+        """extinction probabilities p_i at the epoch boundaries, most recent first.  A p_i of the refined run that the coarse run
+        computes too (same expression) is generalised; one that agrees with a p_j of the coarse run at the witness is PROVED equal
+        to it and the refined result is rewritten with that equality, so that everything older becomes the same expression (the
+        equality has then done its work and is not kept among the facts).  While such an equality is proved, constants B_i that both
+        runs compute (same expression) are generalised as well: the semigroup property of the extinction probability holds for
+        every initial condition.  Returns the rewriting {node of the refined run: node of the coarse run}."""
+        d = self.d
+        rw = {}
+        for k, a in enumerate(p_fine):
+            last = k == len(p_fine) - 1
+            a2 = d.substitute([a], rw)[0] if rw else a
+            if d.ops[a2] == 'const':
+                continue
+            if a2 in p_coarse:
+                if not last:
+                    self.make_abstract(a2)
+                continue
+            for b in p_coarse:
+                if self.close(d.vals[a2], d.vals[b]) and self.prove_generalising(
+                        f'extinction probabilities agree: refined #{a2} = coarse #{b}', d.eq(a2, b), shared_B):
+                    rw[a] = b
+                    self.note_eq(a, a2, b)
+                    if not last:
+                        self.make_abstract(b)
+                    break
+        return rw
+
+    def mobius_phase(self, B_fine, B_coarse, rw, roots):
+        """constants B_i of the refined run, most recent first.  Across a NEW boundary (rho = 0, same rates on both sides) B_i is
+        the Moebius image (E (1 + B_{i+1}) - (1 - B_{i+1})) / (E (1 + B_{i+1}) + (1 - B_{i+1})) of B_{i+1}, E = exp(A_i dt) one of
+        the exp applications of the run.  Candidates are found on the witness, the relation is PROVED, and the refined result is
+        rewritten with it: the rates then no longer occur in B_i."""
+        d = self.d
+        exps = self.uf_nodes(roots, 'exp')
+        prev = None
+        for b1 in B_fine:
+            b2 = d.substitute([b1], rw)[0] if rw else b1
+            if prev is not None and b2 not in B_coarse and d.ops[b2] not in ('const', 'var'):
+                bv = d.vals[prev]
+                for e in exps:
+                    ev = d.vals[e]
+                    den = ev * (1.0 + bv) + (1.0 - bv)
+                    if den == 0 or not self.close((ev * (1.0 + bv) - (1.0 - bv)) / den, d.vals[b2]):
+                        continue
+                    up, dn = d.mul(e, d.add(1, prev)), d.sub(1, prev)
+                    M = d.div(d.sub(up, dn), d.add(up, dn))
+                    if self.prove_generalising(f'B_i #{b2} is the Moebius image of B_(i+1) #{prev} under #{e}', d.eq(b2, M), [prev]):
+                        rw[b1] = M
+                        self.note_eq(b1, b2, M)
+                        b2 = M
+                        break
+            prev = b2
+        return rw
+
+    def exp_relations(self, node):
+        """the laws of exp between the exp applications that occur in `node` itself (their arguments are linear in the inputs):
+        equal / opposite arguments and x = y + z, each PROVED before the law is instantiated.  exp_phase relates every application
+        to earlier representatives; a lemma that mentions few applications is closed faster from the relations among just those."""
+        d = self.d
+        es = [a for a in sorted(self.atoms([node])) if d.ops[a] == 'uf' and d.args[a][0] == 'exp']
+        done = getattr(self, '_exp_rel_done', None)
+        if done is None:
+            done = self._exp_rel_done = set()
+        arg = lambda e: d.args[e][1]  # noqa: E731
+        for x, y in itertools.combinations(es, 2):
+            if (x, y) in done:
+                continue
+            done.add((x, y))
+            if self.close(d.vals[arg(x)], d.vals[arg(y)]) and self.prove(f'exp arguments agree #{x}~#{y}', d.eq(arg(x), arg(y)), hyps=[]):
+                self.fact(d.eq(x, y))
+            elif self.close(d.vals[arg(x)], -d.vals[arg(y)]) and self.prove(f'exp arguments opposite #{x}~#{y}',
+                                                                            d.eq(arg(x), d.neg(arg(y))), hyps=[]):
+                self.fact(d.eq(d.mul(x, y), 1))
+        for x in es:
+            for y, z in itertools.combinations([e for e in es if e != x], 2):
+                if (x, y, z) in done:
+                    continue
+                done.add((x, y, z))
+                if self.close(d.vals[arg(x)], d.vals[arg(y)] + d.vals[arg(z)]) and abs(d.vals[arg(y)]) > 1e-12 and abs(d.vals[arg(z)]) > 1e-12 \
+                        and self.prove(f'exp arguments add #{x}=#{y}+#{z}', d.eq(arg(x), d.add(arg(y), arg(z))), hyps=[]):
+                    self.fact(d.eq(x, d.mul(y, z)))
+
+    def transfer(self, x, x_new, what):
+        """sign of a node of the refined run from the (proved) sign of its rewritten form and the (proved) equalities"""
+        d = self.d
+        v = d.vals[x]
+        if v != v or v == 0:
+            return False
+        mk = (lambda z: d.lt(0, z)) if v > 0 else (lambda z: d.lt(z, 0))
+        if mk(x_new) not in self.facts and mk(x_new) != d.TRUE and not self.sign(x_new, what + ' (rewritten form)'):
+            return False
+        hyps = [mk(x_new)] + [d.eq(a, b) for a, b in self.eqs]
+        if self.prove_generalising(f'{what} #{x} {"> 0" if v > 0 else "< 0"} (as its rewritten form #{x_new})', mk(x),
+                                   [z for ab in self.eqs for z in ab], hyps=hyps, name='t'):
+            self.fact(mk(x))
+            return True
+        return False
+
+    def log_phase_rel(self, I, O, b_atoms=()):
+        """log applications of the refined run against those of the coarse run: log g2 = log g1 [+ log gb [+ log gc]] where
+        g2 = g1 [gb [gc]] is proved (gb, gc: lineage-through-new-boundary terms) and every factor is proved positive.  While a
+        product relation is proved the constants B_i that were not rewritten are generalised (the relation holds for every B)."""
+        d = self.d
+        li = self.uf_nodes([I], 'log')
+        lo = self.uf_nodes([O], 'log')
+        only_i = [n for n in li if n not in lo]
+        only_o = [n for n in lo if n not in li]
+        for L in only_i + only_o:
+            g = d.args[L][1]
+            if self.close(d.vals[g], 1.0) and self.prove(f'log argument #{g} is one', d.eq(g, 1)):
+                self.fact(d.eq(L, 0))  # log 1 = 0
+        pool = only_i + [n for n in self.aux_logs if n not in only_i and n not in lo]
+        # twins: applications (of either run) whose arguments agree at the witness, e.g. a birth exactly on a boundary and the
+        # lineage-through-boundary term, or two tips at the same height: congruence once the arguments are proved equal
+        reps = []
+        for L in only_o + pool:
+            g = d.args[L][1]
+            for R in reps:
+                gr = d.args[R][1]
+                if self.close(d.vals[g], d.vals[gr]):
+                    self.exp_relations(d.eq(g, gr))
+                    if self.prove_generalising(f'log arguments agree #{L}~#{R}', d.eq(g, gr), b_atoms):
+                        self.fact(d.eq(L, R))  # congruence
+                        break
+            else:
+                reps.append(L)
+        unpaired = []
+        for L2 in only_o:
+            g2 = d.args[L2][1]
+            v2 = d.vals[g2]
+            found = False
+            for L1 in only_i:
+                g1 = d.args[L1][1]
+                if self.close(d.vals[g1], v2) and self.prove(f'log arguments agree #{L1}~#{L2}', d.eq(g1, g2)):
+                    self.fact(d.eq(L1, L2))  # congruence
+                    found = True
+                    break
+            for k in (2, 3):
+                if found:
+                    break
+                for combo in itertools.combinations(pool, k):
+                    if not any(L in only_i for L in combo):
+                        continue
+                    gs = [d.args[L][1] for L in combo]
+                    if not self.close(math.prod(d.vals[g] for g in gs), v2):
+                        continue
+                    prod_, sum_ = gs[0], combo[0]
+                    for g, L in zip(gs[1:], combo[1:]):
+                        prod_, sum_ = d.mul(prod_, g), d.add(sum_, L)
+                    names = ' * '.join(f'#{L}' for L in combo)
+                    self.exp_relations(d.eq(prod_, g2))
+                    if self.prove_generalising(f'log arguments: {names} = #{L2}', d.eq(prod_, g2), b_atoms) \
+                            and all(self.positive(g) for g in gs):
+                        self.fact(d.eq(sum_, L2))  # log x + log y (+ log z) = log(xy(z)), all factors > 0
+                        found = True
+                        break
+            if not found:
+                unpaired.append(L2)
+        return unpaired
+
+    def equal_rel(self, I, O, signature, what, p_fine=(), p_coarse=(), B_fine=(), B_coarse=(), built=None):
+        """I: refined run, O: coarse run (both the real code on shared symbols); p_* / B_*: the p_i and B_i each run computed, most
+        recent epoch first (only used to choose lemmas; every lemma is proved by the solver); built: the DAG nodes the two runs built"""
+        d = self.d
+        I0 = self.select_branches(I)
+        O = self.select_branches(O)
+        goal0 = d.eq(I0, O)
+        cone0 = set(d.topo([goal0]))
+        # log applications the runs built but multiplied by a zero lineage count are still available as auxiliary atoms
+        aux0 = [n for n in (built if built is not None else range(len(d.ops))) if d.ops[n] == 'uf' and d.args[n][0] == 'log' and n not in cone0
+                and d.ops[d.args[n][1]] not in ('var', 'const') and d.vals[d.args[n][1]] > 0]
+        self.sqrt_phase([goal0] + aux0)
+        self.exp_phase([goal0] + aux0)
+        self.eqs = []
+        rw = self.p_phase(list(p_fine), list(p_coarse), [x for x in B_fine if x in B_coarse])
+        rw = self.mobius_phase(list(B_fine), list(B_coarse), rw, [goal0] + aux0)
+        I = d.substitute([I0], rw)[0] if rw else I0
+        aux = d.substitute(aux0, rw) if rw else aux0
+        goal = d.eq(I, O)
+        cone = set(d.topo([goal]))
+        self.aux_logs = [n for n in dict.fromkeys(aux) if n not in cone]
+        aux_cone = set(d.topo(self.aux_logs))
+        b_atoms = [x for x in dict.fromkeys(list(B_coarse) + (d.substitute([b for b in B_fine if b not in rw], rw) if rw else list(B_fine)))
+                   if d.ops[x] not in ('const', 'var')]
+
+        def denominators(nodes):  # every divisor below these nodes, and every divisor the engine recorded while folding x/x
+            return list(dict.fromkeys([d.args[n][1] for n in sorted(nodes) if d.ops[n] == 'div' and d.ops[d.args[n][1]] != 'const']
+                                      + [b for b in self.t.denominators if b in nodes]))
+
+        def log_args(nodes):
+            return [(d.args[n][0], d.args[n][1]) for n in sorted(nodes)
+                    if d.ops[n] == 'uf' and d.args[n][0] in ('log', 'sqrt') and d.ops[d.args[n][1]] not in ('var', 'const')]
+
+        self.sign_phase([b for b in denominators(aux_cone) if b not in cone], 'auxiliary denominator')
+        self.defined = self.sign_phase(denominators(cone))
+        self.undefined = []
+        for kind, x in log_args(cone):
+            if not (d.vals[x] > 0 and self.sign(x, kind + ' argument')):
+                self.undefined.append(x)
+        # what the refined run really computed (before the rewriting) has to be well defined too
+        if rw:
+            for b in denominators(cone0):
+                if b not in cone:
+                    b_new = d.substitute([b], rw)[0]
+                    if not (self.transfer(b, b_new, 'denominator') if b_new != b else self.sign(b, 'denominator')):
+                        self.defined = False
+                        self.failed.append((f'denominator #{b} of the refined run (rewritten: #{b_new}): sign not transferred', 'unknown'))
+            for kind, x in log_args(cone0):
+                if x not in cone:
+                    x_new = d.substitute([x], rw)[0]
+                    if not (d.vals[x] > 0 and (self.transfer(x, x_new, kind + ' argument') if x_new != x else self.sign(x, kind + ' argument'))):
+                        self.undefined.append(x)
+        self.unpaired = self.log_phase_rel(I, O, b_atoms)
         hyps = [f for f in self.facts if any(d.ops[a] == 'uf' and d.args[a][0] == 'log' for a in self.atoms([f]))]
         forms = self.generalise([goal] + hyps)
         return Goal(what, forms[0], hyps=forms[1:], signature=signature)
@@ -896,8 +1250,17 @@ def make_body(c, tr, verbose=False):
         what = f'{cfg_label(c)}: log_prob == Stadler constant-rate density'
         if verbose:
             print(f'-- region witness {W} [{time.strftime("%X")}]', flush=True)
+        caught = []
         try:
             dist = build_dist(c, mk)
+            if (two_epoch(c) or c['m'] == 2) and c['cls'] == 'PCBD':
+                real_log_p = dist.log_p
+
+                def log_p(*a, **k):  # the real method, unchanged; its result is only looked at to choose a lemma
+                    caught.append(real_log_p(*a, **k))
+                    return caught[-1]
+
+                dist.log_p = log_p
             impl = dist.log_prob(mk(heights_names(c)))
         except Exception as e:
             from symtorch.expr import EngineError
@@ -907,15 +1270,16 @@ def make_body(c, tr, verbose=False):
             return [Goal(f'{what} (the real code raised {type(e).__name__}: {str(e)[:100]})', d.FALSE, signature=sig)]
         impl_end = len(d.ops)
         x0, xs, tips = oracle_args(c, lambda k: mkfloat(V[k]))
+        probe = {}
         if two_epoch(c):
             f = lambda k: mkfloat(V[k])  # noqa: E731
             rec = (f('lam'), f('mu'), f('psi'))
             older = (f('lam0'), f('mu0'), f('psi0')) if c.get('distinct') else rec
             orc = skyline2_oracle(rec, older, f('rho'), f('rhob') if c.get('rhob') else 0.0, mkfloat(boundary_height(d, V, c)),
-                                  x0, xs, tips, c['survival'], M=_SymMath())
+                                  x0, xs, tips, c['survival'], M=_SymMath(), probe=probe)
         else:
             orc = stadler_oracle(mkfloat(V['lam']), mkfloat(V['mu']), mkfloat(V['psi']), mkfloat(V['rho']), x0, xs, tips,
-                                 c['survival'], mkfloat(V['r']) if c['removal'] else None, M=_SymMath())
+                                 c['survival'], mkfloat(V['r']) if c['removal'] else None, M=_SymMath(), probe=probe)
         if impl._ids.numel() != 1:
             return [Goal(f'{what} (result has shape {tuple(impl.shape)})', d.FALSE, signature=sig)]
         I = int(impl._ids.reshape(-1)[0])
@@ -934,8 +1298,15 @@ def make_body(c, tr, verbose=False):
             # implementation and oracle already differ at this region's witness: no proof to attempt, the witness
             # (and the solver's own point of the region) go to the replay on the real code
             return [Goal(f'{what} (at the region witness: implementation {vi!r}, oracle {vo!r})', d.FALSE, signature=sig)]
+        hint = {}
+        c2s = [SymFloat._id(x) for x in probe.get('c2', []) if isinstance(x, SymFloat)]
+        if caught and two_epoch(c) and isinstance(probe.get('p_boundary'), SymFloat):
+            hint = dict(p_impl=[int(x) for x in caught[0][0]._ids.reshape(-1).tolist()], p_oracle=SymFloat._id(probe['p_boundary']),
+                        B_impl=[int(x) for x in caught[0][2]._ids.reshape(-1).tolist()][::-1], c2_oracle=c2s)
+        elif caught and c['m'] == 2 and not c['removal'] and c2s:
+            hint = dict(B_impl=[int(x) for x in caught[0][2]._ids.reshape(-1).tolist()][::-1], c2_oracle=c2s)
         chain = LemmaChain(t, dom(d, V) + list(t.pcs), tr, cfg_label(c), timeout=c.get('lemma_timeout', 30.0), verbose=verbose)
-        g = chain.equal(I, O, sig, what, impl_end)
+        g = chain.equal(I, O, sig, what, impl_end, **hint)
         open_lemmas = [w for w, st in chain.failed if st == 'unknown']
         if open_lemmas and chain.defined and not chain.undefined:
             # were the open lemmas needed at all?  (the final step is cheap to try)
@@ -944,7 +1315,7 @@ def make_body(c, tr, verbose=False):
                 open_lemmas = []
         if open_lemmas:  # one retry with a long timeout (machine load)
             chain = LemmaChain(t, dom(d, V) + list(t.pcs), tr, cfg_label(c), timeout=90.0, verbose=verbose)
-            g = chain.equal(I, O, sig, what, impl_end)
+            g = chain.equal(I, O, sig, what, impl_end, **hint)
             open_lemmas = [w for w, st in chain.failed if st == 'unknown']
         if open_lemmas:
             g.label += f' [lemmas the portfolio left open: {open_lemmas[:3]}]'
@@ -981,6 +1352,330 @@ def run_density_task(c, tr, verbose=False):
     return out
 
 
+# ===================================================== refinement inside a skyline (relational)
+# Two runs of the REAL PiecewiseConstantBirthDeath.log_prob on shared symbols: a skyline with `base` epochs (base = 2: DISTINCT
+# symbolic rates lam0,mu0,psi0 in the older and lam,mu,psi in the recent epoch, boundary at forward time tb) and the skyline obtained
+# by splitting one of its epochs at a symbolic new boundary (forward time tn; base = 1: two new boundaries tn < tm) and repeating
+# that epoch's rates, rho = 0 at the new boundary.  No oracle is involved: the two results must be equal.
+SIG_SKY = 'PiecewiseConstantBirthDeath.log_prob:changes-when-an-epoch-of-a-skyline-is-split'
+SIG_RHO2 = 'PiecewiseConstantBirthDeath.log_prob:rho-sampled-tips-at-two-sampling-times:raises'
+SIG_SKY_RAISES = 'PiecewiseConstantBirthDeath.log_prob:raises-on-a-two-epoch-skyline'
+
+
+def refine_cfg(**kw):
+    c = dict(kind='refine', cls='PCBD', base=2, split='old', n=2, survival=True, rhob=False, rho0=False, cell=None)
+    c.update(kw)
+    return c
+
+
+def refine_label(c):
+    how = {'old': 'older epoch split', 'recent': 'recent epoch split', 'both': 'split in three'}[c['split']]
+    return (f"refinement inside a skyline: {c['base']} epoch(s){' with distinct rates' if c['base'] == 2 else ''} -> 3, {how}, "
+            f"n={c['n']} survival={c['survival']} rho{'=0' if c['rho0'] else '>0'}"
+            + (' rho-sampling at the old boundary' if c['rhob'] else '') + f" cell={c['cell']}")
+
+
+def refine_var_names(c):
+    n = c['n']
+    names = ['lam', 'mu', 'psi', 'rho', 'origin']
+    if c['base'] == 2:
+        names += ['lam0', 'mu0', 'psi0', 'tb', 'tn']
+        if c['rhob']:
+            names.append('rhob')
+    else:
+        names += ['tn', 'tm']
+    return names + [f's{i}' for i in range(n)] + [f'c{j}' for j in range(n - 1)]
+
+
+REFINE_HEIGHT_OF = {'B': 'tb', 'N': 'tn', 'M': 'tm'}  # cell item -> forward time of that boundary (height = origin - time)
+
+
+def refine_witness(c):
+    W = {'lam': 1.7, 'mu': 0.6, 'psi': 0.4, 'rho': 0.0 if c['rho0'] else 0.3, 'rhob': 0.35, 'lam0': 1.3, 'mu0': 0.8, 'psi0': 0.5}
+    items, rels = parse_cell(c['cell'])
+    steps = [0.3125, 0.46875, 0.59375, 0.734375, 0.375, 0.53125, 0.671875, 0.4375]  # dyadic: sums are exact in float64
+    vals = {}
+    v = 0.0 if items[0] == '0' else 0.234375
+    vals[items[0]] = v
+    for k, (it, rel) in enumerate(zip(items[1:], rels)):
+        if rel != '=':
+            v = v + steps[k % len(steps)]
+        vals[it] = v
+    origin = max(vals.values()) + 0.828125
+    W['origin'] = origin
+    for it, x in vals.items():
+        if it in REFINE_HEIGHT_OF:
+            W[REFINE_HEIGHT_OF[it]] = origin - x
+        elif it != '0':
+            W[it] = x
+    missing = [k for k in refine_var_names(c) if k not in W]
+    if missing:
+        raise ValueError(f'cell {c["cell"]} does not place {missing}')
+    return {k: W[k] for k in refine_var_names(c)}
+
+
+def refine_cell_constraints(c, d, V):
+    items, rels = parse_cell(c['cell'])
+
+    def node(it):
+        if it == '0':
+            return 0
+        if it in REFINE_HEIGHT_OF:
+            return d.sub(V['origin'], V[REFINE_HEIGHT_OF[it]])
+        return V[it]
+
+    cs = []
+    for a, b, rel in zip(items, items[1:], rels):
+        na, nb = node(a), node(b)
+        cs.append(d.lt(na, nb) if rel == '<' else (d.le(na, nb) if rel == '<=' else d.eq(na, nb)))
+    return cs
+
+
+def refine_domain_for(c, with_cell=True):
+    n = c['n']
+
+    def domain(d, V):
+        cs = [d.lt(0, V[k]) for k in ('lam', 'mu', 'psi', 'lam0', 'mu0', 'psi0') if k in V]
+        cs += [d.eq(V['rho'], 0)] if c['rho0'] else [d.lt(0, V['rho']), d.le(V['rho'], 1)]
+        if c['rhob']:
+            cs += [d.lt(0, V['rhob']), d.lt(V['rhob'], 1)]
+        for i in range(n):
+            cs.append(d.le(0, V[f's{i}']))
+        cs += [d.lt(V['s0'], V['c0']), d.lt(V['s1'], V['c0'])]
+        for j in range(1, n - 1):
+            cs += [d.le(V[f'c{j-1}'], V[f'c{j}']), d.lt(V[f's{j+1}'], V[f'c{j}'])]
+        cs.append(d.le(V[f'c{n-2}'], V['origin']))
+        order = {'old': ['tn', 'tb'], 'recent': ['tb', 'tn'], 'both': ['tn', 'tm']}[c['split']]
+        cs += [d.lt(0, V[order[0]]), d.lt(V[order[0]], V[order[1]]), d.lt(V[order[1]], V['origin'])]
+        if with_cell:
+            cs += refine_cell_constraints(c, d, V)
+        return cs
+
+    return domain
+
+
+def refine_stages(c):
+    """the runs that are compared pairwise, coarse first"""
+    return ['skyline', 'split at M', 'refined'] if c['base'] == 1 else ['skyline', 'refined']
+
+
+def build_refine(c, mk, stage):
+    """the skyline (stage 'skyline'), its refinement ('refined'), or for one epoch -> three the intermediate two-epoch skyline that
+    has only the more recent of the two new boundaries ('split at M'); mk(list of names / floats) -> 1-d tensor"""
+    from torchtree.evolution.bdsk import PiecewiseConstantBirthDeath
+
+    kw = dict(survival=c['survival'], validate_args=False, origin=mk(['origin']))
+    if c['base'] == 1:
+        times = {'skyline': [0.0], 'split at M': [0.0, 'tm'], 'refined': [0.0, 'tn', 'tm']}[stage]
+        reps = len(times)
+        kw['rho'] = mk([0.0] * (reps - 1) + ['rho'])
+        kw['times'] = mk(times)
+        return PiecewiseConstantBirthDeath(mk(['lam'] * reps), mk(['mu'] * reps), mk(['psi'] * reps), **kw)
+    rb = 'rhob' if c['rhob'] else 0.0
+    if stage == 'skyline':
+        which, kw['times'], kw['rho'] = [0, 1], mk([0.0, 'tb']), mk([rb, 'rho'])
+    elif c['split'] == 'old':
+        which, kw['times'], kw['rho'] = [0, 0, 1], mk([0.0, 'tn', 'tb']), mk([0.0, rb, 'rho'])
+    else:
+        which, kw['times'], kw['rho'] = [0, 1, 1], mk([0.0, 'tb', 'tn']), mk([rb, 0.0, 'rho'])
+    rates = [[('lam0', 'lam')[e] for e in which], [('mu0', 'mu')[e] for e in which], [('psi0', 'psi')[e] for e in which]]
+    return PiecewiseConstantBirthDeath(mk(rates[0]), mk(rates[1]), mk(rates[2]), **kw)
+
+
+def refine_real_values(c, vals):
+    def mk(items):
+        return torch.tensor([float(vals[x]) if isinstance(x, str) else float(x) for x in items], dtype=torch.float64)
+
+    return [float(build_refine(c, mk, stage).log_prob(mk(heights_names(c)))) for stage in ('skyline', 'refined')]
+
+
+def refine_replay(c, vals):
+    """plain float64 tensors through the real code, twice: the skyline and its refinement"""
+    vals = {k: float(v) for k, v in vals.items() if k in refine_var_names(c)}
+    if set(vals) != set(refine_var_names(c)):
+        return False, 'incomplete counterexample'
+    o = vals['origin']
+    new_b = [o - vals[k] for k in (('tn', 'tm') if c['base'] == 1 else ('tn',))]
+    if any(abs(vals[f's{i}'] - h) <= 1e-12 for i in range(c['n']) for h in new_b):
+        return False, 'a tip is sampled exactly at the new boundary (excluded by the property)'
+    try:
+        coarse, fine = refine_real_values(c, vals)
+    except Exception as e:  # the real code raises on an in-domain input
+        return True, f'real code raised {type(e).__name__}: {str(e)[:160]}'
+    if math.isnan(coarse) or math.isinf(coarse):
+        if math.isnan(fine) or (math.isinf(fine) and fine == coarse):
+            return False, f'both runs are not finite here ({coarse!r}, {fine!r})'
+        return True, f'skyline={coarse!r} refinement={fine!r}'
+    if not (abs(fine - coarse) <= 1e-6 * max(1.0, abs(coarse))):
+        return True, f'skyline={coarse!r} refinement={fine!r}'
+    return False, f'skyline={coarse!r} refinement={fine!r} agree'
+
+
+def refine_signature(c):
+    return SIG_SKY + {'old': ':older-epoch-of-two', 'recent': ':recent-epoch-of-two', 'both': ':one-epoch-in-three'}[c['split']]
+
+
+def make_refine_body(c, tr, verbose=False):
+    dom = refine_domain_for(c)
+    sig = refine_signature(c)
+
+    def body(t, V, W):
+        d = t.dag
+
+        def mk(items):
+            from symtorch import from_ids
+
+            return from_ids(torch.tensor([V[x] if isinstance(x, str) else d.const(float(x)) for x in items], dtype=torch.int64))
+
+        what = f'{refine_label(c)}: log_prob(refined skyline) == log_prob(skyline)'
+        if verbose:
+            print(f'-- region witness {W} [{time.strftime("%X")}]', flush=True)
+        caught = {}
+
+        def run(stage):
+            dist = build_refine(c, mk, stage)
+            real_log_p = dist.log_p
+
+            def log_p(*a, **k):  # the real method, unchanged; its results (p, A, B) are only looked at to choose lemmas
+                caught[stage] = real_log_p(*a, **k)
+                return caught[stage]
+
+            dist.log_p = log_p
+            return dist.log_prob(mk(heights_names(c)))
+
+        stages = refine_stages(c)
+        res = {}
+        built = {}
+        st = None
+        try:
+            for st in stages:
+                n0 = len(d.ops)
+                res[st] = run(st)
+                built[st] = range(n0, len(d.ops))
+        except Exception as e:
+            from symtorch.expr import EngineError
+
+            if isinstance(e, EngineError):
+                raise
+            rsig = sig
+            if st == 'skyline':  # the skyline itself cannot be evaluated here: not a matter of refinement
+                n = c['n']
+                two = (c['rhob'] and W['rho'] > 0 and any(W[f's{i}'] == 0 for i in range(n))
+                       and any(W[f's{i}'] == W['origin'] - W['tb'] for i in range(n)))
+                rsig = SIG_RHO2 if two else SIG_SKY_RAISES
+            return [Goal(f'{what} (the real code raised {type(e).__name__} on the {st}: {str(e)[:100]})', d.FALSE, signature=rsig)]
+        if any(r._ids.numel() != 1 for r in res.values()):
+            return [Goal(f'{what} (results have shapes {[tuple(r.shape) for r in res.values()]})', d.FALSE, signature=sig)]
+        ids = {st: int(r._ids.reshape(-1)[0]) for st, r in res.items()}
+        vo = d.vals[ids[stages[0]]]
+        for st in stages:
+            vi = d.vals[ids[st]]
+            if math.isnan(vi) or math.isinf(vi) or not abs(vi - vo) <= 1e-7 * max(1.0, abs(vo)):
+                # the runs already differ (or are not finite) at this region's witness: nothing to prove, the witness and the
+                # solver's own point of the region go to the replay on the real code
+                return [Goal(f'{what} (at the region witness: skyline {vo!r}, {st} {vi!r})', d.FALSE, signature=sig)]
+
+        def ps(stage, k=0):  # p_i (k = 2: B_i) in the order the recursion computed them (most recent epoch first)
+            if stage not in caught:
+                return []
+            return [int(x) for x in caught[stage][k]._ids.reshape(-1).tolist()][::-1]
+
+        base = dom(d, V) + list(t.pcs)
+        goals = []
+        for coarse, fine in zip(stages, stages[1:]):  # each step splits one epoch once; equality is transitive
+            step = what if len(stages) == 2 else f'{what} [step: {coarse} -> {fine}]'
+            I, O = ids[fine], ids[coarse]
+            chain = LemmaChain(t, base, tr, refine_label(c), timeout=c.get('lemma_timeout', 30.0), verbose=verbose)
+            g = chain.equal_rel(I, O, sig, step, ps(fine), ps(coarse), ps(fine, 2), ps(coarse, 2), list(built[coarse]) + list(built[fine]))
+            open_lemmas = [w for w, st in chain.failed if st == 'unknown']
+            if open_lemmas and chain.defined and not chain.undefined:
+                st, _, _ = prove(d, base + g.hyps, g.node, timeout=20.0, tr=tr, label=step, parallel=True)
+                if st == 'proved':
+                    open_lemmas = []
+            if open_lemmas:  # one retry with a long timeout (machine load)
+                chain = LemmaChain(t, base, tr, refine_label(c), timeout=90.0, verbose=verbose)
+                g = chain.equal_rel(I, O, sig, step, ps(fine), ps(coarse), ps(fine, 2), ps(coarse, 2), list(built[coarse]) + list(built[fine]))
+                open_lemmas = [w for w, st in chain.failed if st == 'unknown']
+            if open_lemmas:
+                g.label += f' [lemmas the portfolio left open: {open_lemmas[:3]}]'
+            goals.append(g)
+            bad = [f'#{x}' for x in chain.undefined] + ([] if chain.defined else ['a denominator'])
+            if bad:
+                goals.append(Goal(f'{refine_label(c)}: well-defined (sign lemma failed for {bad[:3]})',
+                                  d.and_(*[d.lt(0, x) for x in chain.undefined]) if chain.undefined and chain.defined else d.FALSE,
+                                  signature=sig + ':well-defined'))
+            if verbose:
+                print('   lemmas proved', chain.nproved, 'failed', chain.failed, 'unpaired logs', chain.unpaired, flush=True)
+        return goals
+
+    return body
+
+
+def _weak_orderings(items):
+    if not items:
+        yield []
+        return
+    first, rest = items[0], items[1:]
+    for wo in _weak_orderings(rest):
+        for i in range(len(wo)):
+            yield wo[:i] + [wo[i] + [first]] + wo[i + 1:]
+        for i in range(len(wo) + 1):
+            yield wo[:i] + [[first]] + wo[i:]
+
+
+def refine_cells(n, split):
+    """every ordering (ties included) of 0, the tip heights, the internal heights of the caterpillar and the heights of the epoch
+    boundaries (B: boundary of the skyline, N / M: new boundaries) that the domain admits: boundaries strictly between 0 and the
+    origin and in the order the split fixes, NO TIP EXACTLY ON A NEW BOUNDARY (the property's exclusion; births may sit on it,
+    and tips may sit on the skyline's own boundary B).  Deterministic order."""
+    tips = [f's{i}' for i in range(n)]
+    ints = [f'c{j}' for j in range(n - 1)]
+    bounds = {'old': ['B', 'N'], 'recent': ['N', 'B'], 'both': ['M', 'N']}[split]  # increasing height
+    out = []
+    for wo in _weak_orderings(['0'] + tips + ints + bounds):
+        pos = {x: k for k, blk in enumerate(wo) for x in blk}
+        ok = pos['0'] == 0 and all(pos[b] > 0 for b in bounds) and pos[bounds[0]] < pos[bounds[1]]
+        ok = ok and pos['s0'] < pos['c0'] and pos['s1'] < pos['c0']
+        for j in range(1, n - 1):
+            ok = ok and pos[f'c{j-1}'] <= pos[f'c{j}'] and pos[f's{j+1}'] < pos[f'c{j}']
+        ok = ok and not any(pos[b] == pos[s] for b in bounds if b != 'B' for s in tips)
+        if ok:
+            out.append('<'.join('='.join(sorted(blk, key=lambda x: (x != '0', x))) for blk in wo))
+    return sorted(out)
+
+
+def run_refine_cover_task(spec, tr):
+    """the cells of the relational refinement tasks cover the stated domain (one solver query per split)"""
+    c = refine_cfg(n=spec['n'], split=spec['split'], base=1 if spec['split'] == 'both' else 2, cell=spec['cells'][0])
+    with tracing() as t:
+        d = t.dag
+        V = {nm: d.var(nm, v) for nm, v in refine_witness(c).items()}
+        dom = refine_domain_for(c, with_cell=False)(d, V)
+        for k in (('tn', 'tm') if c['base'] == 1 else ('tn',)):  # no tip exactly on a new boundary
+            dom += [d.not_(d.eq(V[f's{i}'], d.sub(V['origin'], V[k]))) for i in range(c['n'])]
+        cells = [d.and_(*refine_cell_constraints(dict(c, cell=cell), d, V)) for cell in spec['cells']]
+        st, r, _ = prove(d, dom, d.or_(*cells), timeout=120.0, tr=tr, label='refinement cells cover the domain', parallel=True)
+        if st == 'proved':
+            tr.closures += 1
+        else:
+            tr.inconc(f'relational refinement, n={spec["n"]} split={spec["split"]}: coverage of the domain by the cells not certified ({st})')
+
+
+def run_refine_task(c, tr, verbose=False):
+    from torchtree.evolution.bdsk import PiecewiseConstantBirthDeath as P
+
+    tr.fn(P.log_prob, P.log_p, P.log_q)
+    label = refine_label(c)
+    ex = Explorer(refine_witness(c), refine_domain_for(c), make_refine_body(c, tr, verbose), tr, max_regions=c.get('budget', 12),
+                  timeout=c.get('timeout', 30.0), label=label, check_defined=False, deadline=time.time() + c.get('deadline', 1500))
+    out = ex.run()
+    for s in out.region_samples[:1]:
+        s['case'] = label
+        tr.sample(s)
+    triage(out, lambda vals: refine_replay(c, vals), tr, label, {'refine_cfg': c})
+    return out
+
+
 # ================================================================ JSON plumbing
 SIG_RP = 'BDSKModel.from_json:removal_probability-read-from-relative_times'
 SIG_TLIST = 'BDSKModel.from_json:times-given-as-list:not-converted-to-tensor'
@@ -1009,12 +1704,44 @@ PLUMB_VARIANTS = {
     'bd survival=False': ('BirthDeathModel', [], {'survival': False}),
 }
 
+# every documented BDSKModel option once more with TWO epochs (R, delta, s, rho, removal_probability of length 2, one inner
+# boundary).  BirthDeathModel is the constant-rate model: no epochs to repeat it with.
+PARAM_VALUES_2 = {'R': [1.5, 2.1], 'delta': [1.2, 0.9], 's': [0.3, 0.45], 'rho': [0.15, 0.2], 'origin': [5.0], 'times': [0.0, 3.6],
+                  'removal_probability': [0.7, 0.6]}
+PLUMB_VARIANTS_2 = {
+    'bdsk origin': ('BDSKModel', ['origin'], {}),  # times omitted: two epochs of equal length
+    'bdsk origin rho': ('BDSKModel', ['origin', 'rho'], {}),
+    'bdsk origin survival=False': ('BDSKModel', ['origin'], {'survival': False}),
+    'bdsk origin survival=True': ('BDSKModel', ['origin', 'rho'], {'survival': True}),
+    'bdsk origin_is_root_edge=True': ('BDSKModel', ['origin', 'times'], {'origin_is_root_edge': True}),
+    'bdsk origin_is_root_edge=False': ('BDSKModel', ['origin', 'times'], {'origin_is_root_edge': False}),
+    'bdsk times parameter': ('BDSKModel', ['origin', 'times', 'rho'], {}),
+    'bdsk removal_probability': ('BDSKModel', ['origin', 'times', 'removal_probability'], {}),
+    'bdsk relative_times=True': ('BDSKModel', ['origin', 'times'], {'relative_times': True}, {'times': [0.0, 0.7]}),
+    'bdsk relative_times=False': ('BDSKModel', ['origin', 'times'], {'relative_times': False}),
+    'bdsk times list': ('BDSKModel', ['origin'], {'times': [0.0, 3.6]}),
+    'bdsk no origin': ('BDSKModel', ['rho'], {}),
+}
+TWO = ' [2 epochs]'
+
+
+def plumb_spec(variant):
+    """(model, optional Parameter keys, plain options, parameter values)"""
+    if variant.endswith(TWO):
+        spec = PLUMB_VARIANTS_2[variant[:-len(TWO)]]
+        return spec[0], spec[1], spec[2], dict(PARAM_VALUES_2, **(spec[3] if len(spec) > 3 else {}))
+    return PLUMB_VARIANTS[variant] + (PARAM_VALUES,)
+
+
+def plumb_variants():
+    return list(PLUMB_VARIANTS) + [v + TWO for v in PLUMB_VARIANTS_2]
+
 
 def plumb_json(variant):
-    model, keys, opts = PLUMB_VARIANTS[variant]
+    model, keys, opts, values = plumb_spec(variant)
 
     def P(k):
-        return {'id': 'p_' + k, 'type': 'Parameter', 'tensor': list(PARAM_VALUES[k])}
+        return {'id': 'p_' + k, 'type': 'Parameter', 'tensor': list(values[k])}
 
     tree = dict(cm.time_tree_json(((0, 1), 2), 3), taxa=cm.taxa_json(3, [0.5, 0.0, 0.2]))
     js = {'id': 'model', 'type': model, 'tree_model': tree}
@@ -1030,7 +1757,7 @@ def plumb_expected(variant, get, heights):
     from torchtree.evolution.bdsk import PiecewiseConstantBirthDeath
     from torchtree.evolution.birth_death import BirthDeath
 
-    model, keys, opts = PLUMB_VARIANTS[variant]
+    model, keys, opts, _ = plumb_spec(variant)
     if model == 'BirthDeathModel':
         return BirthDeath(get('lambda'), get('mu'), get('psi'), get('rho'), get('origin'), survival=opts.get('survival', True),
                           validate_args=False).log_prob(heights)
@@ -1068,7 +1795,7 @@ def plumb_replay(variant, which):
         model, dic = cm.build(js)
     except Exception as e:
         return True, f'from_json raised {type(e).__name__}: {e}'
-    _, _, opts = PLUMB_VARIANTS[variant]
+    _, _, opts, values = plumb_spec(variant)
     if which.startswith('attr:'):
         k = which[5:]
         got = getattr(model, ATTR_OF.get(k, k), None)
@@ -1081,7 +1808,7 @@ def plumb_replay(variant, which):
         out = model()
     except Exception as e:
         return True, f'calling the model raised {type(e).__name__}: {e}'
-    exp = plumb_expected(variant, lambda k: dic['p_' + k].tensor if 'p_' + k in dic else torch.tensor(PARAM_VALUES[k]),
+    exp = plumb_expected(variant, lambda k: dic['p_' + k].tensor if 'p_' + k in dic else torch.tensor(values[k]),
                          model.tree_model.node_heights)
     if not torch.allclose(out.reshape(-1).double(), exp.reshape(-1).double(), rtol=1e-5, atol=1e-5):
         return True, f'model() = {out.tolist()} but the options name a density of {exp.tolist()}'
@@ -1089,9 +1816,11 @@ def plumb_replay(variant, which):
 
 
 def plumb_signature(variant, which, detail=''):
-    model, keys, opts = PLUMB_VARIANTS[variant]
+    model, keys, opts, _ = plumb_spec(variant)
     if model == 'BirthDeathModel':
         return SIG_BDM if which == 'call' else SIG_PLUMB + ':BirthDeathModel:' + which
+    if variant.endswith(TWO) and 'removal_probability' in keys and which == 'call':
+        return SIG_RM  # the density itself raises with a removal probability and several epochs (whatever built it)
     if 'removal_probability' in keys or 'relative_times' in opts:
         if which in ('call', 'attr:removal_probability'):
             return SIG_RP
@@ -1107,7 +1836,7 @@ def run_plumbing_task(variant, tr):
     from torchtree.evolution.birth_death import BirthDeathModel
 
     tr.fn(BDSKModel.from_json, BDSKModel._call, BirthDeathModel.from_json, BirthDeathModel._call, epidemiology_to_birth_death)
-    model_name, okeys, opts = PLUMB_VARIANTS[variant]
+    model_name, okeys, opts, values = plumb_spec(variant)
     js, keys = plumb_json(variant)
     label = f'plumbing [{variant}]'
     with tracing() as t:
@@ -1116,17 +1845,20 @@ def run_plumbing_task(variant, tr):
         V = {}
         sym = {}
         goals = []
-        for k in keys:  # one distinct symbol per documented key
+        for k in keys:  # one distinct symbol per documented key (and per epoch)
             if 'p_' + k not in dic:  # from_json never looked at the key
-                sym[k] = new_vars(k, torch.tensor(PARAM_VALUES[k], dtype=torch.float64))
+                sym[k] = new_vars(k, torch.tensor(values[k], dtype=torch.float64))
             else:
-                sym[k] = cm.symbolize(dic['p_' + k], k, torch.tensor(PARAM_VALUES[k], dtype=torch.float64))
-            V[f'{k}[0]'] = int(sym[k]._ids[0])
+                sym[k] = cm.symbolize(dic['p_' + k], k, torch.tensor(values[k], dtype=torch.float64))
+            for i, x in enumerate(sym[k]._ids.reshape(-1).tolist()):
+                V[f'{k}[{i}]'] = int(x)
         for k in keys:
             got = getattr(model, ATTR_OF.get(k, k), None)
             ids = getattr(getattr(got, 'tensor', None), '_ids', None)
-            node = d.eq(int(ids.reshape(-1)[0]), V[f'{k}[0]']) if ids is not None and ids.numel() == 1 else d.FALSE
-            goals.append((f'attr:{k}', f'the symbol given under JSON key {k!r} is what attribute {ATTR_OF.get(k, k)!r} holds', node))
+            want = [V[f'{k}[{i}]'] for i in range(len(values[k]))]
+            node = d.and_(*[d.eq(int(a), b) for a, b in zip(ids.reshape(-1).tolist(), want)]) \
+                if ids is not None and ids.numel() == len(want) else d.FALSE
+            goals.append((f'attr:{k}', f'the symbol(s) given under JSON key {k!r} are what attribute {ATTR_OF.get(k, k)!r} holds', node))
         for k, v in opts.items():
             if isinstance(v, bool):
                 goals.append((f'attr:{k}', f'option {k}={v} is stored', d.bconst(getattr(model, k, None) is v)))
@@ -1231,8 +1963,82 @@ def tasks_for(tier):
             ts.append(('density', D(m=2, n=3, times='abs', cell=cell, split={'rho0': False})))
     else:
         ts.append(('cover', dict(n=2, cells=QUICK_CELLS, tips='positive', half=True, strict=True)))
-    ts += [('plumb', v) for v in PLUMB_VARIANTS]
+    ts += refine_tasks(tier) + distinct_tasks(tier)
+    ts += [('plumb', v) for v in plumb_variants()]
     ts.append(('beast', None))
+    return ts
+
+
+QUICK_REFINE = [
+    # (split, cell, options): births on the new boundary, tips at 0 and on the skyline's own boundary, 0 / 1 / 2 lineages through it
+    ('old', '0<s0<B<s1<N=c0', {}), ('old', '0<s0<s1<B<N<c0', {}), ('old', '0=s0<B=s1<c0<N', {}), ('old', '0<B<N<s0<s1<c0', {}),
+    ('old', '0<s0<B<s1<N<c0', {'rhob': True}), ('old', '0<s0<s1<B<c0<N', {'rho0': True, 'survival': False}),
+    ('old', '0=s0<B=s1<c0<N', {'rhob': True}),  # tips at both rho-sampling times
+    ('recent', '0<s0<s1<N=c0<B', {}), ('recent', '0<s0<N<s1<B<c0', {}), ('recent', '0=s0<N<s1<B=c0', {}), ('recent', '0<N<s0<s1<B<c0', {}),
+    ('recent', '0<s0<N<s1<B<c0', {'rhob': True}), ('recent', '0<s1<N<B=s0<c0', {'rho0': True}),
+    ('both', '0<s0<M<s1<N=c0', {}), ('both', '0<s0<s1<M=c0<N', {}), ('both', '0=s0<M<N<s1<c0', {}),
+    ('both', '0<M<s0<s1<N<c0', {'rho0': True, 'survival': False}),
+]
+REFINE_N3_STEP = {'old': 46, 'recent': 37, 'both': 32}  # thorough: every k-th of the 1836 / 1488 / 1274 cells of three taxa
+
+
+def refine_n3_cells(split):
+    return refine_cells(3, split)[5::REFINE_N3_STEP[split]]
+
+
+def refine_tasks(tier):
+    """relational refinement inside a skyline (two / three runs of the real code on shared symbols)"""
+    R = refine_cfg
+    base = {'old': 2, 'recent': 2, 'both': 1}
+    if tier == 'quick':
+        return [('refine', R(split=sp, base=base[sp], cell=cell, **opt)) for sp, cell, opt in QUICK_REFINE]
+    ts = []
+    for sp in ('old', 'recent', 'both'):
+        cells = refine_cells(2, sp)
+        ts += [('refine', R(split=sp, base=base[sp], cell=cell)) for cell in cells]
+        ts.append(('refine-cover', dict(n=2, split=sp, cells=cells)))
+        if sp != 'both':  # rho-sampling at the skyline's own boundary, every second cell (tips on that boundary included)
+            ts += [('refine', R(split=sp, base=2, cell=cell, rhob=True)) for cell in cells[::2]]
+        ts += [('refine', R(split=sp, base=base[sp], cell=cell, rho0=True)) for cell in cells[1::3]]
+        ts += [('refine', R(split=sp, base=base[sp], cell=cell, survival=False)) for cell in cells[2::3]]
+        ts += [('refine', R(split=sp, base=base[sp], n=3, cell=cell)) for cell in refine_n3_cells(sp)]
+    return ts
+
+
+def has_tip_on_boundary(cell):
+    items, rels = parse_cell(cell)
+    blocks, blk_ = [], [items[0]]
+    for it, rel in zip(items[1:], rels):
+        if rel == '=':
+            blk_.append(it)
+        else:
+            blocks.append(blk_)
+            blk_ = [it]
+    blocks.append(blk_)
+    return any('B' in blk and any(x.startswith('s') for x in blk) for blk in blocks)
+
+
+def distinct_tasks(tier):
+    """two epochs with DISTINCT rates against the two-epoch oracle composed from the constant-rate solution"""
+    D = density_cfg
+    X = dict(m=2, distinct=True, times='abs', split={'rho0': False})
+    if tier == 'quick':
+        ts = [('density', D(cell=cell, **X)) for cell in QUICK_CELLS]
+        ts.append(('density', D(cell='0=s0<B<s1<c0', survival=False, **X)))
+        ts.append(('density', D(cell='0<s0<=s1<B<c0', rhob=True, **X)))  # rho at the boundary together with survival conditioning
+        return ts
+    ts = []
+    for cell in CELLS_N2 + CELLS_N2_TIP0:
+        for surv in (False, True):
+            ts.append(('density', D(cell=cell, survival=surv, **X)))
+            if not has_tip_on_boundary(cell):  # the oracle has no tip sampled at the inner boundary
+                ts.append(('density', D(cell=cell, survival=surv, rhob=True, **X)))
+    ts += [('density', D(n=3, cell=cell, **X)) for cell in CELLS_N3]
+    ts.append(('density', D(n=3, cell='0<s2<s0<=s1<B<c0<c1', rhob=True, **X)))
+    ts.append(('density', D(m=2, distinct=True, times='rel', origin='root_edge', cell='0<s0<=s1<B<c0', split={'rho0': False})))
+    ts.append(('density', D(m=2, distinct=True, times='rel', cell='0<s0<B<s1<c0', split={'rho0': False})))
+    ts.append(('density', D(m=2, distinct=True, times='abs', cell='0<s0<=s1<B<c0', split={'rho0': True})))
+    ts.append(('density', D(m=2, distinct=True, times='abs', origin='root_edge', survival=False, cell='0<s0<=s1<B=c0', split={'rho0': False})))
     return ts
 
 
@@ -1282,6 +2088,10 @@ def _run_task(task, tr):
         return
     if kind == 'cover':
         return run_cover_task(arg, tr)
+    if kind == 'refine':
+        return run_refine_task(arg, tr)
+    if kind == 'refine-cover':
+        return run_refine_cover_task(arg, tr)
     run_density_task(arg, tr)
 
 
@@ -1290,7 +2100,13 @@ def body(chk):
                        'epoch boundary and node heights; path regions enumerated with a coverage certificate; on each region '
                        'impl == independently written Stadler-2010 density is decided by a chain of solver lemmas (exp/log/sqrt '
                        'applications generalised to real variables, their laws instantiated only after the solver proved the '
-                       'premises); JSON plumbing decided on the expression DAG with one distinct symbol per documented key')
+                       'premises); refinement inside a skyline is relational: the skyline (two epochs, distinct symbolic rates) and '
+                       'its refinement (one epoch split at a symbolic new boundary) are both executed by the real code on shared '
+                       'symbols and the equality of the two results is decided by the same kind of chain, in which extinction '
+                       'probabilities shared by the two runs are generalised to fresh variables after their bounds were proved and '
+                       'proved equalities are used as rewrite rules (well-definedness of what was rewritten away is transferred back '
+                       'through the proved equalities); JSON plumbing decided on the expression DAG with one distinct symbol per '
+                       'documented key and epoch')
     chk.total.assumptions |= {
         'exp/log/sqrt are uninterpreted; only ground instances of their laws are used (congruence, exp(x+y)=exp(x)exp(y), exp(0)=1, '
         'x>0 => exp(x)>1, log(xy)=log x+log y for x,y>0, log 1=0, sqrt(x)^2=x and sqrt(x)>=0 for x>=0), each instantiated only after '
@@ -1302,13 +2118,19 @@ def body(chk):
         'test_bdsky.py); with a removal probability the density is that of the labelled tree (+(n-1) log 2, as BEAST2 bdsky)',
         'origin omitted: the process starts at the root (limit of a zero-length root edge)',
         'log 2 enters through its float64 value on both sides',
-        'agreement with numerical integration of the master equations and 4-8 epochs with distinct rates: not decidable with this '
-        'technique, not claimed',
+        'agreement with numerical integration of the master equations and 4-8 epochs: not decidable with this technique, not claimed',
+        'relational refinement: rates of both epochs > 0 (psi > 0 in particular), 0 < new boundary, boundaries strictly ordered and '
+        'strictly inside (0, origin), origin given, absolute times, internal heights <= origin; no tip exactly on a NEW boundary (the '
+        'property excludes a sampling event there); births on it and tips on the skyline\'s own boundary are included',
+        'generalisation of a sub-expression (an extinction probability p_i, a constant B_i) to a fresh real variable inside a lemma is '
+        'sound for proving: the lemma is then proved for every value of that quantity within the bounds that were proved for it',
+        'one epoch -> three epochs is decided as two single splits (the real code is also run on the intermediate two-epoch skyline); '
+        'equality is transitive',
         'removal probability with r=0 and rho=1 is examined in a separate task (corner): the general tasks assume r>0 or rho<1',
     }
     quick = chk.tier == 'quick'
     chk.total.bounds.update({
-        'taxa': 'n = 2' if quick else 'n <= 3 (one epoch); n = 2 and selected n = 3 cells (two epochs)',
+        'taxa': 'n = 2' if quick else 'n <= 3 (one epoch); n = 2 and selected n = 3 cells (two and three epochs)',
         'tree': 'the density sees the tree through node heights only: heights of a caterpillar ((0,1),2) with unconstrained tip '
                 'order cover every 2/3-taxon tree up to relabelling; serial and contemporaneous tips, ties included',
         'one epoch': 'symbolic lambda, mu, psi, rho, r, origin, heights; with/without survival conditioning and removal probability; '
@@ -1325,12 +2147,43 @@ def body(chk):
                                       + ('' if quick else ', cells with 0, 1 (n=2) and 3 (n=3) crossing lineages')
                                       + '; relative times with a root edge on one cell; oracle = constant-rate solution restarted at the '
                                       'boundary with 1-rho_eff = (1-rho_1) p(boundary), validated on the two-epoch BEAST2 literals'),
-        'not covered': 'more than two epochs; epochs with different rates (the portfolio did not close the identity within 20 min; the '
-                       'two-epoch oracle reproduces the BEAST2 literals with distinct rates in plain floats only); rho-sampling at an inner '
-                       'boundary together with survival conditioning (equality is proved but positivity of the survival probability is '
-                       'undecided) or with a tip sampled at that boundary; the identical-rate refinement tasks cannot see a misplaced '
-                       'boundary (the density does not depend on it), only the rho-at-boundary tasks can; batched parameters; numerical '
-                       'integration of the master equations',
+        'refinement inside a skyline (relational)': (
+            'two epochs with DISTINCT symbolic rates (lambda, mu, psi of each epoch), symbolic rho, boundary, new boundary, origin and '
+            'heights vs the three-epoch skyline with the older / the recent epoch split and its rates repeated, rho = 0 at the new '
+            'boundary; one epoch vs the same epoch split in three (two new boundaries).  Cells = orderings (ties included) of 0, tip '
+            'heights, internal heights and boundary heights (B: the skyline\'s boundary, N, M: new boundaries); every cell was one path '
+            'region (coverage certificate per cell).  '
+            + ('quick: n = 2, selected cells only (no coverage claim): ' + '; '.join(
+                f"{sp}: {cell}" + (' [' + ', '.join(f'{k}={v}' for k, v in opt.items()) + ']' if opt else '') for sp, cell, opt in QUICK_REFINE)
+               if quick else
+               f'thorough: n = 2: ALL {len(refine_cells(2, "old"))} + {len(refine_cells(2, "recent"))} + {len(refine_cells(2, "both"))} cells '
+               '(older epoch split / recent epoch split / one epoch in three) with rho > 0 and survival conditioning, certified by the '
+               'solver to cover the domain (no tip exactly on a new boundary); with 0 < rho_1 < 1 at the skyline\'s own boundary: every '
+               'second cell of the two-epoch splits; rho = 0 and no survival conditioning: every third cell each; n = 3: every '
+               f'{REFINE_N3_STEP["old"]}th / {REFINE_N3_STEP["recent"]}th / {REFINE_N3_STEP["both"]}th of the 1836 / 1488 / 1274 cells '
+               f'({len(refine_n3_cells("old"))} + {len(refine_n3_cells("recent"))} + {len(refine_n3_cells("both"))} cells, no coverage '
+               'claim for n = 3)')),
+        'two epochs with distinct rates vs the two-epoch oracle': (
+            'symbolic rates of both epochs, rho, boundary, origin, heights; oracle = constant-rate solution of Stadler 2010 in each epoch, '
+            'restarted at the boundary with 1 - rho_eff = (1 - rho_1) p(boundary) (reproduces the two-epoch BEAST2 literals '
+            'test_1rho2times and test_likelihood_calculation4 of test_bdsky.py in plain floats); '
+            + ('quick: n = 2, cells ' + ', '.join(QUICK_CELLS) + ' with survival conditioning, 0=s0<B<s1<c0 without, and one cell with '
+               '0 < rho_1 < 1 at the boundary together with survival conditioning' if quick else
+               'thorough: n = 2: all cells ' + ', '.join(CELLS_N2 + CELLS_N2_TIP0) + ' with and without survival conditioning (these cells '
+               'are certified to cover the two-epoch domain with rho > 0), each also with 0 < rho_1 < 1 at the boundary unless a tip sits '
+               'on the boundary; n = 3: ' + ', '.join(CELLS_N3) + '; relative times (with and without a root edge), root edge, rho = 0 on '
+               'single cells')),
+        'JSON plumbing': 'every documented key of BDSKModel / BirthDeathModel with one epoch, and every key of BDSKModel once more with two '
+                         'epochs (R, delta, s, rho, removal_probability of length 2, times [0, t1] given as parameter / list / omitted, '
+                         'relative or absolute, origin given / root edge / omitted, survival on / off); BirthDeathModel is the constant-rate '
+                         'model (no epochs)',
+        'not covered': 'more than three epochs; three epochs only relationally (against the two-epoch skyline they refine), no independent '
+                       'oracle for three epochs; refinement of a skyline with relative times, a root edge or an omitted origin; n = 3 '
+                       'relational refinement on a sample of cells only; a tip sampled exactly at an inner boundary that carries '
+                       'rho-sampling is outside the two-epoch oracle (the relational tasks include it, also together with rho-sampled '
+                       'tips at the present); the identical-rate refinement tasks cannot see a '
+                       'misplaced boundary (the density does not depend on it), the distinct-rate tasks can; removal probability with '
+                       'several epochs (raises: known finding); batched parameters; numerical integration of the master equations',
     })
     chk.total.stubs |= {'exp', 'log', 'sqrt (uninterpreted, generalised to real variables inside every lemma)'}
     pmap(run_task, tasks_for(chk.tier), chk.total, workers=12)
@@ -1340,9 +2193,11 @@ def replay_file(path):
     r = json.load(open(path))['replay']
     if 'cfg' in r:
         ok, detail = replay(r['cfg'], r['values'])
+    elif 'refine_cfg' in r:
+        ok, detail = refine_replay(r['refine_cfg'], r['values'])
     else:
         lab = r.get('label', '')
-        variant = lab[lab.index('[') + 1:lab.index(']')]
+        variant = lab[lab.index('[') + 1:lab.rindex(']')]
         ok, detail = False, 'no failing goal'
         for which in ['call'] + ['attr:' + k for k in ('removal_probability', 'times', 'origin', 'rho', 'relative_times', 'survival')]:
             ok, detail = plumb_replay(variant, which)
